@@ -119,6 +119,9 @@ def fixed_pool_cases(profile):
             for k, vk in enumerate(('ndarray', 'exc', 'touchy', 'falsy')):
                 cases.append({'backend': be, 'api': ('lpm', 'pm', 'pf')[k % 3], 'n': 4, 'workers': 2, 'buffer': 2,
                               'delays': [2, 0, 1, 0], 'vk': vk, 'salt': 50 + k})
+            if be in ('t', 'mp', 'dill_mp'):
+                cases.append({'backend': be, 'api': 'pm', 'n': 4, 'workers': 2, 'buffer': 2, 'delays': [0, 1, 0, 0],
+                              'src_lambda': True})
             # a None example in the source (the input of the function), mid-stream
             cases.append({'backend': be, 'api': 'pm', 'n': 5, 'workers': 2, 'buffer': 2, 'delays': [0, 1, 0, 0, 0],
                           'src_none': 2})
